@@ -116,10 +116,12 @@ CsvPath.__init__ = _cinit
 class StubReader:
     RECORDS = None
     READS = 0
+    LOG = []  # keyword arguments (dialect) every reader instance was created with
 
     def __init__(self, path, **kw):
         self.path = path
         self.kw = kw
+        StubReader.LOG.append(kw)
 
     def next(self):
         StubReader.READS += 1
